@@ -52,6 +52,11 @@ def gen_models(rng, tier):
     psis = [0.5, 1 / 32, 31 / 32] + [rng.randrange(1, 64) / 64 for _ in range(2 if tier == 'quick' else 8)]
     for p in psis:
         ms.append({'kind': 'dirac', 'psi': p, 'c': rng.choice([0.0, 0.5, 1.0, 3.25, 50.0]), 'scale_time': rng.random() < 0.7})
+    # designed (independent of the draws): the boundary c = 0 of the Dirac family and alpha close to 2 of the Beta family,
+    # each with and without time scaling
+    for st in (True, False):
+        ms.append({'kind': 'dirac', 'psi': 0.375, 'c': 0.0, 'scale_time': st})
+        ms.append({'kind': 'beta', 'alpha': 2 - 1 / 256, 'scale_time': st})
     return ms
 
 
